@@ -101,6 +101,7 @@ func findListSitesOpt(cfg *lib.Cfg, seed int64, kind lib.Kind, domain int, hosti
 				kopt := opt
 				kopt.Hostile = hostileKeys
 				kopt.PreciseDecimals = hostileKeys
+				kopt.EmptyKeyStrings = hostileKeys
 				kg := lib.NewGen(cfg, seed, i*7+len(out), kopt)
 				ids := map[string]bool{}
 				for tries := 0; len(s.tuples) < domain && tries < 200; tries++ {
